@@ -70,8 +70,10 @@ class UserSpec:
 
 
 class World:
-    def __init__(self, loop, users, backend="memory", server_kwargs=None, spy=None, family=socket.AF_INET, port=2121):
+    def __init__(self, loop, users, backend="memory", server_kwargs=None, spy=None, family=socket.AF_INET, port=2121, manager_factory=None):
         self.loop = loop
+        # manager_factory(list of aioftp.User) -> an AbstractUserManager: a user manager other than the shipped one
+        self.manager_factory = manager_factory
         self.net = simnet.Net(loop, family=family, host="127.0.0.1" if family == socket.AF_INET else "::1")
         self.user_specs = users
         self.backend = backend
@@ -106,7 +108,7 @@ class World:
 
             self.vexec = simnet.VirtualExecutor(self.loop)
             factory = functools.partial(factory, executor=self.vexec)
-        self.server = aioftp.Server(self.users, path_io_factory=factory, **self.kw)
+        self.server = aioftp.Server(self.users if self.manager_factory is None else self.manager_factory(self.users), path_io_factory=factory, **self.kw)
         await self.server.start(self.net.host, self.port)
         return self
 
